@@ -14,7 +14,7 @@ extensions, non-ASCII letters, symlinks to files, to directories, chains, owner 
 each X.html as /X, the special routes, and near misses (missing name, doubled slash, slash after a file, letter-case change, name prefix), each with the suffixes '', '?q=1', '#f', '?a=b#c'. \
 Oracle M-LOOKUP (std::fs on the materialised tree) + M-MIME (harness's transcription of the extension table): selected file -> 200, body byte-identical, Content-Length = size, Content-Type = type of the selected name; \
 nothing selected -> 404 without any other tree file's marker and without the directory's entry names; suffix variants equal the plain response modulo the timestamp; legacy entry point agrees on plain files. \
- A quarter of the trees are served by the real release binary over loopback (class served-by-the-real-binary), the rest by Server::process on the mock transport; same oracle. Non-trivial = selected through directory index, .html fallback or symlink, a file >= 8 KiB, an empty file, a non-ASCII name, or a near miss; distinct by (tree, path); counted per request.",
+ A quarter of the trees are served by the real release binary over loopback (class served-by-the-real-binary), the rest by Server::process on the mock transport; same oracle. After the first pass the tree is edited while the server is up (one file rewritten with another length, one deleted, files created at two paths that were answered 404) and the affected paths are requested again against the disk as it is then. Non-trivial = selected through directory index, .html fallback or symlink, a file >= 8 KiB, an empty file, a non-ASCII name, or a near miss; distinct by (tree, path); counted per request.",
         &["tolerances: a directory without index whose name + '.html' exists may answer 404 or that file; doubled slashes and a slash after a file may answer the file or 404; a symlink may be typed by its own or its target's extension; \
 an extension in other letter case may be typed by the table's lower-case entry or as octet-stream; .oga may be audio/oga (rws's constant) or audio/ogg"],
         if tier == Tier::Quick { 900 } else { 14400 },
@@ -76,7 +76,35 @@ pub fn check_tree(ctx: &Ctx, c: &Case, count: bool) -> Verdict {
     let mut problems: Vec<(String, String)> = vec![];
     let mut evals = 0u64; let mut nontrivial = 0u64;
     let mut classes: std::collections::BTreeMap<&'static str, u64> = Default::default();
-    'outer: for (path, kind) in &paths {
+    // second phase: the tree is edited while the server is up (a file rewritten with another length, a file deleted, files created where the first phase
+    // was answered 404) and the affected paths are requested again - the oracle reads the disk as it is at that moment
+    let mut work: Vec<(String, &'static str)> = paths.clone();
+    let mut next = 0usize;
+    let mut edited = c.only_path.is_some();
+    'outer: loop {
+        if next == work.len() {
+            if edited { break; }
+            edited = true;
+            let salt = c.tree.salt;
+            let regular: Vec<&crate::fw::tree::TFile> = tree.files.iter().filter(|f| f.kind == "file" && !f.url.contains('#') && !f.url.contains('?')).collect();
+            if !regular.is_empty() {
+                let f = regular[(salt % regular.len() as u64) as usize];
+                let old_len = std::fs::metadata(tree.abs(&f.url)).map(|m| m.len()).unwrap_or(0) as usize;
+                let text = format!("RWSV-EDIT-{:x}-rewritten ", salt).repeat(1 + (old_len / 20 + 3) % 400);
+                if std::fs::write(tree.abs(&f.url), text).is_ok() { work.push((f.url.clone(), "after-edit-rewritten")); if let Some(stem) = f.url.strip_suffix(".html") { if !stem.ends_with('/') { work.push((stem.to_string(), "after-edit-rewritten")); } } }
+                if regular.len() >= 2 {
+                    let g = regular[((salt >> 8) % regular.len() as u64) as usize];
+                    if g.url != f.url && std::fs::remove_file(tree.abs(&g.url)).is_ok() { work.push((g.url.clone(), "after-edit-deleted")); if let Some(stem) = g.url.strip_suffix(".html") { if !stem.ends_with('/') { work.push((stem.to_string(), "after-edit-deleted")); } } }
+                }
+            }
+            if std::fs::write(tree.abs("/missing-entry"), format!("RWSV-EDIT-{:x}-created", salt)).is_ok() { work.push(("/missing-entry".into(), "after-edit-created")); }
+            if std::fs::create_dir_all(tree.abs("/missing-dir")).is_ok() && std::fs::write(tree.abs("/missing-dir/missing.html"), format!("<p>RWSV-EDIT-{:x}-created-page</p>", salt)).is_ok() {
+                work.push(("/missing-dir/missing.html".into(), "after-edit-created")); work.push(("/missing-dir/missing".into(), "after-edit-created"));
+            }
+            continue;
+        }
+        let (path, kind) = { let (p, k) = &work[next]; (&p.clone(), &*k) };
+        next += 1;
         if let Some(only) = &c.only_path { if only != path { continue; } }
         let sel = lookup(&tree.root, path);
         let (plain_out, plain_res) = get(path, Entry::Process);
@@ -85,7 +113,7 @@ pub fn check_tree(ctx: &Ctx, c: &Case, count: bool) -> Verdict {
         if c.binary { *classes.entry("served-by-the-real-binary").or_insert(0) += 1; }
         if let Err((m, loc)) = &plain_res { problems.push((format!("panic:{}:{}", super::common::panic_module(loc), m), format!("GET {} panicked at {}", path, loc))); break 'outer; }
         let (resp, body) = match body_of(&plain_out) { Some(x) => x, None => { problems.push(("unparseable-response".into(), format!("GET {}", path))); break 'outer; } };
-        let mut nt = kind.starts_with("near-miss");
+        let mut nt = kind.starts_with("near-miss") || kind.starts_with("after-edit");
         // tolerance sets
         let dir_without_index_with_html = matches!(sel, Selected::Nothing) && { let p = tree.abs(path.trim_end_matches('/')); p.is_dir() && std::path::PathBuf::from(format!("{}.html", p.display())).is_file() };
         let slash_variants = *kind == "near-miss-slash-after-file" || *kind == "near-miss-doubled-slash";
@@ -153,8 +181,8 @@ pub fn check_tree(ctx: &Ctx, c: &Case, count: bool) -> Verdict {
                 }
             }
         }
-        if !matched && slash_variants && resp.status >= 400 && !markers.iter().any(|(_, m)| m.len() > 20 && crate::fw::util::contains_sub(&body, m.as_bytes())) {
-            // doubled slashes / a slash after a file are left open by the statement: an error status without any file's content is accepted
+        if !matched && slash_variants && (400..500).contains(&resp.status) && !markers.iter().any(|(_, m)| m.len() > 20 && crate::fw::util::contains_sub(&body, m.as_bytes())) {
+            // doubled slashes / a slash after a file are left open by the statement: a client-error status (4xx; a 5xx says the server failed, which no lookup outcome is) without any file's content is accepted
             // (observed: a doubled slash in front of a relative symlink is answered 416, the manual link resolution is one level off)
             matched = true;
             if count { ctx.note(if resp.status == 404 { "slash-variant-answered-404" } else { "slash-variant-answered-other-4xx" }); }
